@@ -36,7 +36,7 @@ ANCHOR_FILES = ("_core", "_namespace", "_typehints", "_util", "_common")
 NO_SHRINK = ("parser/opts", "parser/opts/*", "world", "world/*")
 SHRINK_DICTS = ("ops/*/obj", "ops/*/env", "ops/*/base", "ops/*/ns")
 
-FEATS = ["l", "ll", "d", "dl", "t", "st", "tl", "x", "n", "p", "inner", "dd", "dg", "obj", "objs", "holder", "model", "pr"]
+FEATS = ["l", "ll", "d", "dl", "t", "st", "tl", "x", "n", "p", "inner", "dd", "dg", "obj", "objs", "dobjs", "odobjs", "holder", "model", "pr"]
 
 
 def parser_spec(feats, eoe):
@@ -77,6 +77,10 @@ def parser_spec(feats, eoe):
         arg("obj", "opt_base", {"__lazy__": "Sub1", "kw": {"n": 2, "opts": {"a": 2.0}}})
     if "objs" in feats:
         arg("objs", "list_base", [])
+    if "dobjs" in feats:
+        arg("dobjs", "dict_str_base", {})
+    if "odobjs" in feats:
+        arg("odobjs", "odict_str_base", None)
     if "holder" in feats:
         arg("holder", "opt_holder", None)
     if "model" in feats:
@@ -104,6 +108,8 @@ OBJ = {
     "dg": [{"dg": {"w": [3, 4]}}],
     "obj": [{"obj": SUB1}, {"obj": {"class_path": "dsim.simtypes.Base"}}, {"obj": "dsim.simtypes.Base"}, {"obj": {"class_path": "os.path"}}, {"obj": {"class_path": "dsim.simtypes.Sub2", "init_args": {"path": "A/pa.txt"}}}],
     "objs": [{"objs": [{"class_path": "dsim.simtypes.Base", "init_args": {"tags": [1]}}]}, {"objs": [SUB1, SUB1]}],
+    "dobjs": [{"dobjs": {"k": {"class_path": "dsim.simtypes.Base", "init_args": {"tags": [1]}}, "j": SUB1}}],
+    "odobjs": [{"odobjs": {"__odict__": [["k", {"class_path": "dsim.simtypes.Base", "init_args": {"tags": [1]}}], ["j", SUB1]]}}],
     "holder": [{"holder": {"class_path": "dsim.simtypes.Holder"}}, {"holder": {"class_path": "dsim.simtypes.Holder", "init_args": {"inner": {"class_path": "dsim.simtypes.Base", "init_args": {"tags": [2]}}}}}],
     "model": [{"model": {"base": {"class_path": "dsim.simtypes.Sub1", "init_args": {"opts": {"a": 3}}}}}, {"model": {"name": "q"}}],
 }
@@ -121,7 +127,7 @@ ARGV = {
     "model": [["--model.base=Sub1"]],
     "p": [["--p=A/pa.txt"]],
 }
-KINDS = ["parse_object", "parse_object", "parse_object_ns", "parse_object_base", "parse_args", "parse_args_ns", "parse_args_nodefaults", "parse_string", "parse_env", "parse_path", "validate", "dump", "save", "merge", "strip", "inst", "defaults", "help", "inst2"]
+KINDS = ["parse_object", "parse_object", "parse_object_ns", "parse_object_base", "parse_args", "parse_args_ns", "parse_args_nodefaults", "parse_path_obj", "save_obj", "inst_empty", "parse_string", "parse_env", "parse_path", "validate", "dump", "save", "merge", "strip", "inst", "defaults", "help", "inst2"]
 
 
 def _pick(rng, table, feats):
@@ -162,7 +168,13 @@ def gen_op(rng, feats):
         op["env"] = rng.choice([{"APP_A": "1", "APP_L": "[1,2]"}, {"APP_A": "x"}, {"APP_CFG": "A/main.yaml"}, {}])
     elif kind == "parse_path":
         op["path"] = rng.choice(["A/main.yaml", "A/bad.yaml", "A/nofile.yaml", "A/plain.yaml"])
-    elif kind in ("validate", "dump", "save", "merge", "strip", "inst", "inst2"):
+    elif kind == "parse_path_obj":
+        # a Path object whose recorded cwd is not the process cwd (built with cwd=, or before the app changed directory)
+        op["path"] = rng.choice(["main.yaml", "bad.yaml", "plain.yaml", "B/inner.yaml"])
+        op["cwd"] = "$W/A"
+    elif kind == "inst_empty":
+        pass
+    elif kind in ("validate", "dump", "save", "save_obj", "merge", "strip", "inst", "inst2"):
         # how the config the op receives is obtained (not judged), then raw caller-owned containers put into it
         op["base"] = {"obj": gen_obj(rng, feats), "skip_validation": rng.random() < 0.3} if rng.random() < 0.7 else {"argv": gen_argv(rng, feats)}
         op["raw"] = _pick(rng, OBJ, feats) if rng.random() < 0.6 else {}
@@ -170,9 +182,10 @@ def gen_op(rng, feats):
             op["base2"] = {"obj": gen_obj(rng, feats), "skip_validation": True}
         if kind == "dump":
             op["kw"] = rng.choice([{}, {"skip_validation": True}, {"skip_none": False}, {"format": "json"}, {"skip_default": True}])
-        if kind == "save":
+        if kind in ("save", "save_obj"):
             op["kw"] = {"overwrite": True, "multifile": rng.random() < 0.5}
-            op["path"] = "out/saved.yaml"
+            op["path"] = "out/saved.yaml" if kind == "save" else "saved.yaml"
+            op["cwd"] = "$W/out"
     return op
 
 
@@ -209,6 +222,10 @@ def realise(v):
             return tuple(realise(x) for x in v["__tuple__"])
         if "__set__" in v:
             return set(v["__set__"])
+        if "__odict__" in v:
+            import collections
+
+            return collections.OrderedDict((k, realise(x)) for k, x in v["__odict__"])
         return {k: realise(x) for k, x in v.items()}
     if isinstance(v, list):
         return [realise(x) for x in v]
@@ -251,6 +268,13 @@ def prepare(p, op):
         return {"env": dict(op["env"])}
     if k == "parse_path":
         return {"cfg_path": op["path"]}
+    if k == "parse_path_obj":
+        from jsonargparse import Path as _P
+
+        o = run_op(lambda: _P(op["path"], "fr", cwd=op["cwd"]))
+        return {"cfg_path": o.value} if o.kind == "ret" else None
+    if k == "inst_empty":
+        return {"cfg": Namespace()}
     if k in ("defaults", "help"):
         return {}
     o = run_op(lambda: _base_cfg(p, op["base"]))
@@ -261,6 +285,13 @@ def prepare(p, op):
         if kk != "zz":
             cfg[kk] = v
     args = {"cfg": cfg}
+    if k == "save_obj":
+        from jsonargparse import Path as _P
+
+        o3 = run_op(lambda: _P(op["path"], "fc", cwd=op["cwd"]))
+        if o3.kind != "ret":
+            return None
+        args["path"] = o3.value
     if k == "merge":
         o2 = run_op(lambda: _base_cfg(p, op["base2"]))
         if o2.kind != "ret":
@@ -285,8 +316,12 @@ def call(p, op, args):
         return p.parse_string(args["cfg_str"])
     if k == "parse_env":
         return p.parse_env(args["env"])
-    if k == "parse_path":
+    if k in ("parse_path", "parse_path_obj"):
         return p.parse_path(args["cfg_path"])
+    if k == "save_obj":
+        return p.save(args["cfg"], args["path"], **op.get("kw", {}))
+    if k == "inst_empty":
+        return p.instantiate_classes(args["cfg"])
     if k == "validate":
         return p.validate(args["cfg"])
     if k == "dump":
@@ -477,7 +512,7 @@ def execute(sc, ctx):
                 elif st != "ok":
                     raise RuntimeError("golden sub-run failed: %r" % (gold,))
                 else:
-                    if kind == "save":
+                    if kind in ("save", "save_obj"):
                         world.restore(root, side)
                         os.chdir(cwd)
                     kinds = gold["kinds"]
@@ -500,7 +535,7 @@ def execute(sc, ctx):
                         for ft in fts:
                             sim.probe("sweep-site")
                             st, res = fork_call(_sweep_sub, sc, root, i, [{"op": i, "site": "*", "k": j + 1, "fault": ft}])
-                            if ft["type"] == "adversary" or kind == "save":
+                            if ft["type"] == "adversary" or kind in ("save", "save_obj"):
                                 world.restore(root, side)
                                 os.chdir(cwd)
                             if st == "signal":
